@@ -65,7 +65,7 @@ def near(a, b, scale):
 def build(tier, seed):
     thorough = tier == 'thorough'
     obs = []
-    NMAX = 8 if thorough else 5
+    NMAX = 6 if thorough else 5
     rates = RATES + ([0.01, 0.25, 3.0] if thorough else [])
 
     # ---------------- NPV: sum c_i / (1+r)^i, linear, plain sum at rate 0
